@@ -328,12 +328,26 @@ class C19(DiffProperty):
                "IEEE-754 binary64 round-to-nearest-even of the host (SSE2, no contraction at -O1) is what rnd64 in IterModel.v computes; this is "
                "validated by the bit-exact comparison of every value, not proved",
                "harness/c19_iter.c reads values the way examples/iter.c does (value(), mpt_value_convert to 'd'); texts live in exact-size heap blocks"]
-    level_text = ("proof: Coq theorems C19_walk_visits_exactly, C19_past_end_reported, C19_reset_replays, C19_clone_replays, "
-                  "C19_history_refines, C19_linear_closed_form, C19_linear_first_last, C19_malformed_refused (and helpers) state for every "
-                  "source kind, every count (N, no bound) and every history that the transcribed iterator state machines behave as a cursor over "
-                  "the denoted sequence; the model is tied to the code on every run by differential execution under ASan/UBSan with bit-exact "
-                  "values")
-    level_note = "see docs/notes_C19.md"
+    level_text = ("proof: 18 Coq theorems (coq/C19/Properties.v), all for EVERY arithmetic rnd : Q -> fv, every count in N and every history, no "
+                  "bound: C19_walk_visits_exactly / C19_walk_of_nothing (documented loop from any reachable state of the linear/range, factor, "
+                  "boundary, polynomial and value-list iterators yields exactly the remaining denoted sequence, in order, and stops), "
+                  "C19_text_walk_visits_exactly (same for the text iterator read as numbers), C19_past_end_reported (no value, negative code, "
+                  "state unchanged), C19_reset_replays + C19_denoted_stable, C19_clone_replays / C19_clone_refines, C19_history_refines (any "
+                  "interleaving of value/advance/reset/clone on source and clone, all seven kinds incl. buffer/argument iterators, "
+                  "corresponds call by call to a cursor over the denoted sequence), C19_build_fresh / C19_buffer_fresh / C19_text_fresh "
+                  "(constructors establish the invariant), C19_linear_closed_form + _first/_last/_equal_steps (exact arithmetic: element i = a + "
+                  "i(b-a)/n, first a, last b), C19_accepted_in_grammar + C19_malformed_refused (mpt_iterator_create accepts only the transcribed "
+                  "grammar, with the count/bounds at the named positions). The model is tied to the code on every run by differential execution "
+                  "under ASan/UBSan; binary64 arithmetic is modelled exactly, every value compared bit for bit")
+    level_note = ("trusted: Coq kernel; hand transcription of the C files (validated by the correspondence run, not verified); extraction and "
+                  "OCaml driver; harness; libc strtod/strtoumax as oracle (table per text offset); rnd64 = IEEE round-to-nearest-even is "
+                  "validated by bit-exact comparison, not proved. PARTIAL: (1) the grammar theorem is the soundness direction (accepted => in "
+                  "grammar, hence outside grammar => refused); completeness (in grammar => accepted) is not proved; the profile and polynomial "
+                  "description parsers and mpt_values_linear/_bound are modelled and compared but have no theorem; (2) the closed form is "
+                  "proved for exact arithmetic; its distance to the binary64 evaluation is checked by the stated 4-ulp rule on every explored "
+                  "case, not proved; (3) constructors fed from another iterator (mpt_range_set, TypeIteratorPtr values) and the 'file' profile "
+                  "are not modelled. The theorems hold for the tree with the 12 fix: commits of branch verif-C19. All theorems are closed under "
+                  "the global context (no axioms). See docs/notes_C19.md.")
     technique = "Coq proof (state machines refine a cursor over the denoted sequence) + differential correspondence check with exact binary64 model"
     assumptions = ["malloc succeeds", "texts contain no byte >= 0x80 (the C code passes plain char to isspace)",
                    "|b-a| does not overflow binary64 and (b-a)/n is not subnormal where the closed form is compared"]
